@@ -188,7 +188,7 @@ func (c *blsCtx[PK, PKFE, SG, SGFE, EK, ES]) wantSingle(alg bls.RogueKeyPreventi
 }
 
 func (c *blsCtx[PK, PKFE, SG, SGFE, EK, ES]) body() func(*engine.X) {
-	pairs := keyMsgPairs()
+	pairs := keyMsgPairs(engine.Thorough())
 	r := c.r()
 	return func(x *engine.X) {
 		alg := engine.Pick(x, "mode", blsAlgs)
@@ -435,7 +435,7 @@ func (c *blsCtx[PK, PKFE, SG, SGFE, EK, ES]) body() func(*engine.X) {
 			b.pk, b.dlog, b.pkEnc = c.pkStruct(low), nil, nil
 			add(b)
 		}
-		for _, ma := range messageAlterations(msg, 0) {
+		for _, ma := range messageAlterations(msg, 0, engine.Thorough() && alg == bls.Basic) {
 			a := base
 			a.label, a.msg = ma.label, ma.msg
 			if len(ma.msg) == 0 {
